@@ -34,7 +34,8 @@ VERIF_ROOT = env.VERIF_ROOT
 KNOWN_PATH = os.path.join(VERIF_ROOT, "known_findings.json")
 REPLAY_DIR = os.path.join(VERIF_ROOT, "replays")
 REPLAY_OUT = os.environ.get("VERIF_REPLAY_OUT") or REPLAY_DIR  # where new failing cases are written
-EVIDENCE_DIR = os.path.join(VERIF_ROOT, "evidence")
+EVIDENCE_DIR = os.environ.get("VERIF_EVIDENCE_OUT") or os.path.join(VERIF_ROOT, "evidence")  # tools that run
+# the checks against a modified tree (mutants, seeded changes, coverage audit) redirect it so the committed evidence stays clean
 
 MAX_KEYS_PER_SUBCHECK = 4  # collect-then-shrink: distinct root causes enumerated per sub-check
 SHRINK_BUDGET_S = {"quick": 45.0, "thorough": 240.0}
